@@ -26,11 +26,25 @@ import (
 type c15StrCase struct {
 	S   string `json:"s"`   // the denoted string
 	Lit string `json:"lit"` // the literal text (with quotes)
+	// a near twin compiled right afterwards: the same literal with one raw white-space run
+	// lengthened or replaced by another white-space character
+	TwinS   string `json:"twin_s,omitempty"`
+	TwinLit string `json:"twin_lit,omitempty"`
 }
 
 var c15StrAlphabet = []string{"a", "Z", "0", " ", "'", "\"", "`", "\\", "/", "\f", "\n", "\r", "\t", "é", "€", "日", "😀", "u", "n", "u00e9", "́", " ", "%", "@"}
 
 func c15GenStr(s Src) c15StrCase {
+	if s.Prob(12) {
+		words := []string{"a", "Jane", "Z0", "é", "日", "x%"}
+		w1, w2 := pickOne(s, words), pickOne(s, words)
+		ws := pickOne(s, []string{" ", "  ", "\t", "\n", "\u00a0", " \t"})
+		ws2 := pickOne(s, []string{ws + ws, ws + " ", " " + ws, "\t", "\n", " ", "\u00a0"})
+		if ws2 == ws {
+			ws2 = ws + ws
+		}
+		return c15StrCase{S: w1 + ws + w2, Lit: "'" + w1 + ws + w2 + "'", TwinS: w1 + ws2 + w2, TwinLit: "'" + w1 + ws2 + w2 + "'"}
+	}
 	n := s.Range(0, 10)
 	var raw, lit strings.Builder
 	lit.WriteByte('\'')
@@ -101,6 +115,14 @@ func c15RunStr(ctx *Ctx, c c15StrCase) {
 			which = "\\`"
 		}
 		ctx.Fail("escapes: literal does not evaluate to the string it denotes (escape "+which+")", fmt.Sprintf("%s → %q, want %q", c.Lit, got, c.S))
+		return
+	}
+	if c.TwinLit != "" {
+		// white space inside a literal is significant: a near twin compiled next evaluates to itself
+		t := evalWith(c.TwinLit, nil, nil)
+		if t.failed() || len(t.Coll) != 1 || renderItem(t.Coll[0]) != renderItem(system.String(c.TwinS)) {
+			ctx.Fail("escapes: a literal that differs from an earlier one only in white space inside the quotes does not evaluate to its own string", fmt.Sprintf("after %q: %q → %s, want %q", c.Lit, c.TwinLit, t, c.TwinS))
+		}
 	}
 }
 
